@@ -13,6 +13,7 @@ import (
 	"runtime/debug"
 	"slices"
 	"strings"
+	"time"
 	"unsafe"
 
 	"golang.org/x/tools/go/ssa"
@@ -226,6 +227,13 @@ func (m *Machine) visitInstr(fr *frame, instr ssa.Instruction) continuation {
 	m.steps++
 	if m.steps > m.eng.MaxSteps {
 		panic(pathAbort{"step budget exhausted"})
+	}
+	if m.steps&0xfff == 0 && m.eng.PathWall > 0 && time.Since(m.t0) > m.eng.PathWall {
+		pos, st := m.site()
+		if len(st) > 3 {
+			st = st[:3]
+		}
+		panic(pathAbort{fmt.Sprintf("path time budget exhausted at %s in %v after %d decisions", pos, st, m.ndec)})
 	}
 	switch instr := instr.(type) {
 	case *ssa.DebugRef:
